@@ -40,6 +40,8 @@ class C05(Check):
             yield from families.seats_ties(4, spaces.W(4, 2, 4, (1, 2, 3)), seats=(2, 3), ties='id', cfgs=D)
             yield from families.seats_ties(5, spaces.W(5, 2, 3, (1, 2, 4)), seats=(2, 3), ties='id', cfgs=D)
             yield from families.seats_ties(5, spaces.W(5, 3, 3, (1, 3)), seats=(2, 3), ties='id', cfgs=[{'rule': r} for r in configs.FAST5] + [{'rule': 'meek'}, {'rule': 'qpq'}])
+            yield from families.seats_ties(4, spaces.W(4, 3, 3, (1, 3, 5, 8)), seats=(2, 3), ties='id',
+                                           cfgs=[{'rule': 'warren'}, {'rule': 'meek'}, {'rule': 'warren', 'arithmetic': 'fixed', 'precision': 6}])
 
     def check(self, case, acc):
         n, seats = case['n'], case['s']
@@ -76,7 +78,8 @@ class C05(Check):
                         if len(S) >= 2 or seats >= 2:
                             acc.nontrivial.add(h64((n, seats, ballots, case.get('tie'), configs.cfg_key(cfg), S, k)))
                         if len(el & set(S)) < min(k, len(S)):
-                            acc.violation('C05|%s|coalition' % rule,
+                            stable = any(A['tag'] == 'log' and A['msg'].startswith('Stable state detected') for A in t.actions)
+                            acc.violation('C05|%s|%s' % (rule, 'coalition-after-stable-exit' if stable else 'coalition'),
                                           'coalition %s has %d of %d ballots (> %d x quota %s) but only %d of its candidates are elected (%s): %s'
                                           % (list(S), v, B, k, q0, len(el & set(S)), sorted(el), ecase.short(case, cfg)), one)
                     else:
